@@ -563,6 +563,11 @@ func runC03(c *Ctx) {
 	c.ruleInventory(a)
 	c.ruleSendHoldsNothing("C03.inventory")
 	c.rulePrivate(a)
+	// Send's first blocking step is Broker.lock.RLock(): it is acquirable again after every other
+	// Broker call only if each acquisition in the package is released on every path — a refused
+	// RemoveNode that returns with the write lock held makes every later Send block for ever,
+	// cancelled context or not
+	c.pairingRule("C03.pairing", func(fn *ssa.Function) bool { return PkgPathOf(fn) == PkgRoot }, false)
 	_ = p
 }
 
@@ -873,6 +878,32 @@ func (c *Ctx) ruleWG(a *protoAnchors) {
 			}
 		})
 		r.Check(isGo, rule, "fanout-goroutine", p.Pos(a.fanout.Pos()), "the fan-out runs in its own goroutine, so the collector drains the channel concurrently", "the fan-out is not started with go: the collector never runs while the traversals send (deadlock on the unbuffered channel)")
+		// the close is reached on EVERY exit of the fan-out goroutine: a return that skips it
+		// (an early exit for "nothing was started") leaves the collector waiting on a channel
+		// nobody closes — Send hangs until the caller's context ends, forever without one
+		okAll := true
+		for _, pa := range c.enum(rule, a.fanout, PathOpts{}) {
+			ret, isRet := pa.End.(*ssa.Return)
+			if !isRet {
+				continue
+			}
+			closed := false
+			for _, s := range pa.Steps {
+				if s.In == cl && s.Depth == 0 {
+					closed = true
+				}
+			}
+			if closed || ctxDoneOnPath(pa) {
+				continue // with a done context the collector leaves through ctx.Done()
+			}
+			if okAll {
+				r.Bad(rule, "close-on-every-exit", p.InstrPos(ret), "the fan-out goroutine can return, under a context not known to be done, without closing the status channel: the collector's only other exit is the context, so Send never returns for a caller whose context is never cancelled ("+p.PathSummary(pa)+")")
+			}
+			okAll = false
+		}
+		if okAll {
+			r.Ok(rule, "close-on-every-exit", p.InstrPos(cl), "every return of the fan-out goroutine under a live context passed close(statusChan)")
+		}
 	}
 }
 
